@@ -1,7 +1,7 @@
 """C09 - the bipartite matching routine returns a maximum matching."""
 import itertools, json, os
 from harness import flowlib
-from harness.common import pmap, lean_query, guard, VERIF, safe_judge
+from harness.common import pmap, lean_query, guard, VERIF, safe_judge, pmap_singles
 from harness.c01 import chunks
 
 LEVEL = "proof"
@@ -133,8 +133,8 @@ def run_batch(R, graphs, tag, deadline):
     flat = []
     for case, res in zip(cases, results):
         if "results" not in res:
-            singles = pmap("c09", "impl_batch", [{"graphs": [g]} for g in case["graphs"]], deadline=10.0)
-            flat += [s["results"][0] if "results" in s else {"hang": True} for s in singles]
+            singles = pmap_singles("c09", "impl_batch", [{"graphs": [g]} for g in case["graphs"]], deadline=10.0, R=R)
+            flat += [s["results"][0] if "results" in s else ({"skipped": True} if "skipped" in s else {"hang": True}) for s in singles]
         else:
             flat += res["results"]
     mcm_ans = lean_query([flowlib.lean_mcm_line(g) for g in graphs])
